@@ -333,9 +333,14 @@ def check(prop, tier, seed, replay):
         with open(rpath, "w") as f:
             f.write("\n".join(rp.get("lines", [])) + "\n")
         inputs = [rpath]
-    for fam, nq, nt in cfg.get("families", []):
+    for famspec in cfg.get("families", []):
+        fam, nq, nt = famspec[:3]
+        heavy = len(famspec) > 3 and famspec[3] == "chain"
         n = 0 if replay else (nt if tier == "thorough" else nq)
-        res = run_family(prop, fam, n, seed, tier, inputs=inputs, shards=shards if n >= 1000 else 1)
+        nsh = shards if n >= 1000 else 1
+        if heavy and n >= 16:
+            nsh = 14 if tier == "thorough" else 8
+        res = run_family(prop, fam, n, seed, tier, inputs=inputs, shards=nsh)
         errors.extend(res["errors"])
         st = {"cases": 0, "ok": 0, "diff": 0, "monfail": 0, "known": 0, "nontrivial": 0, "outcomes": {}}
         for il, dl in res["pairs"]:
